@@ -243,3 +243,94 @@ def good_day_grid(rep):
     for key, items in found.items():
         rep.violation(key, items[0][0] + " (+%d more)" % (len(items) - 1), [x[1] for x in items[:5]], items[0][2])
     return bool(found)
+
+
+def imsaak_grid(rep):
+    """Public-API judge for get_imsaak (C12/C03): Imsaak = Fajr recomputed at angle Fajr+Imsaak (angle methods), = Fajr - interval
+    (Imsaak interval), and = extreme Fajr - (interval | 1.5 min) flagged when Fajr is extreme. Unrounded seconds, 1 s slack."""
+    found = {}
+    cases = []
+
+    def add(tag, lat, lon, gmt, date, method, ext, extra):
+        cases.append((tag, api_case(lat, lon, gmt, date, method, ext, "None", extra)))
+    for (lat, lon, gmt, date) in ((30.0, 31.0, 2.0, "2023-03-05"), (39.0, -77.0, -5.0, "2023-02-06"), (-33.9, 151.2, 10.0, "2023-08-10"), (45.0, 10.0, 1.0, "2023-10-01")):
+        for method, aF in (("Shafi", 18.0), ("Isna", 15.0), ("Egyptian", 20.0)):
+            for aI in (0.5, 1.5, 3.0):
+                add(("angle", aF, aI), lat, lon, gmt, date, method, "None", {"angles": {"Imsaak": aI}})
+                add(("angle-ref", aF, aI), lat, lon, gmt, date, method, "None", {"angles": {"Fajr": aF + aI}})
+            for iv in (1.0, 15.0):
+                add(("interval", iv), lat, lon, gmt, date, method, "None", {"intervals": {"Imsaak": iv}})
+                add(("extreme", iv), lat, lon, gmt, date, method, "SeventhOfNightFajrIshaAlways", {"intervals": {"Imsaak": iv}})
+            add(("extreme", 0.0), lat, lon, gmt, date, method, "SeventhOfNightFajrIshaAlways", {})
+    outs = replay.run([c for _, c in cases])
+    ref = {}
+    for (tag, c), r in zip(cases, outs):
+        if tag[0] == "angle-ref" and "times" in r:
+            ref[(c["lat"], c["date"], c["params"]["method"], tag[2])] = r["times"]["Fajr"]
+    for (tag, c), r in zip(cases, outs):
+        if "times" not in r:
+            found.setdefault("imsaak-panic", []).append(("prayer_times_dt panics: %s" % r.get("panic"), c, r))
+            continue
+        ims, fj = r["times"]["Imsaak"], r["times"]["Fajr"]
+        if tag[0] == "angle":
+            want = ref.get((c["lat"], c["date"], c["params"]["method"], tag[2]))
+            if want and (ims is None or abs(ims["secs"] - want["secs"]) > 1):
+                found.setdefault("imsaak-angle", []).append(("Imsaak with Imsaak angle %s = %s, Fajr at angle %s+%s = %s [%s %s lat %s]" %
+                                                               (tag[2], ims, tag[1], tag[2], want, c["params"]["method"], c["date"], c["lat"]), c, r))
+        elif tag[0] == "interval" and fj is not None:
+            if ims is None or abs((fj["secs"] - ims["secs"]) % 86400 - 60 * tag[1]) > 1 or ims["extreme"] != fj["extreme"]:
+                found.setdefault("imsaak-interval", []).append(("Imsaak interval %s: Imsaak %s, Fajr %s" % (tag[1], ims, fj), c, r))
+        elif tag[0] == "extreme" and fj is not None and fj["extreme"]:
+            d = 60 * (tag[1] if tag[1] else 1.5)
+            if ims is None or abs((fj["secs"] - ims["secs"]) % 86400 - d) > 1 or not ims["extreme"]:
+                found.setdefault("imsaak-extreme", []).append(("extreme Fajr %s, Imsaak %s, expected %.0f s earlier and flagged (Imsaak interval %s)" %
+                                                                 (fj, ims, d, tag[1]), c, r))
+    for key, items in found.items():
+        rep.violation(key, items[0][0] + (" (+%d more)" % (len(items) - 1) if len(items) > 1 else ""), [x[1] for x in items[:5]], items[0][2])
+    return bool(found)
+
+
+def nearest_lat_grid(rep):
+    """Kernel-level judge for the nearest-latitude policies (C10): Fajr/Isha (and all six for the all-prayers variant) equal get_hours
+    on the library's own ephemeris evaluated at the substitute latitude, same longitude and date, within 3 s."""
+    found = {}
+    combos = [(60.0, -60.0, "2023-10-25", "Shafi"), (10.0, 50.0, "2023-07-03", "Mwl"), (30.0, 48.5, "2023-06-01", "Egypt"),
+              (58.3, 48.5, "2022-07-06", "Isna"), (-40.0, 45.0, "2023-01-15", "Isna"), (62.0, 30.0, "2023-05-20", "Egyptian")]
+    eph, meta = [], []
+    for lat, nlat, date, method in combos:
+        for la in (lat, nlat):
+            eph.append({"api": "k_ephemeris", "date": date, "gmt": 1.0, "lat": la, "lon": 10.0, "elev": 0.0})
+    tri = kreplay.run(eph)
+    cases = []
+    for k, (lat, nlat, date, method) in enumerate(combos):
+        for la, t in ((lat, tri[2 * k]), (nlat, tri[2 * k + 1])):
+            cases.append({"api": "k_get_hours", "lat": la, "lon": 10.0, "elev": 0.0, "astros": t["astros"], "params": {"method": method, "ext": "None", "round": "None"}})
+    hrs = kreplay.run(cases)
+    adj_cases, adj_meta = [], []
+    for k, (lat, nlat, date, method) in enumerate(combos):
+        h_obs, h_sub = hrs[2 * k].get("hours"), hrs[2 * k + 1].get("hours")
+        if not h_obs or not h_sub:
+            continue
+        for pol in NEAR:
+            adj_cases.append({"api": "k_adj", "params": {"method": method, "round": "None", "ext": {pol: nlat}}, "hours": h_obs,
+                              "lat": lat, "lon": 10.0, "elev": 0.0, "date": date, "gmt": 1.0})
+            adj_meta.append((pol, h_obs, h_sub, lat, nlat, date, method))
+    for c, (pol, h_obs, h_sub, lat, nlat, date, method), r in zip(adj_cases, adj_meta, kreplay.run(adj_cases)):
+        if "out" not in r:
+            found.setdefault("nearest-lat-panic", []).append(("adj_for_ext_lat panics under %s" % pol, c, r))
+            continue
+        which = range(6) if pol == "NearestLatitudeAllPrayersAlways" else (0, 5)
+        for i in which:
+            if i == 2:
+                continue
+            sub, obs, out = h_sub[i], h_obs[i], r["out"][i]
+            if pol.endswith("Invalid") and obs is not None:
+                continue
+            if sub is None:
+                continue
+            if out is None or abs(out[0] - sub) > TOL or not out[1]:
+                found.setdefault("nearest-lat-value", []).append(("%s: %s = %s, conventional time at the substitute latitude %s is %.6f [observer %s, %s, %s]" %
+                                                                    (pol, SIX[i], out, nlat, sub, lat, date, method), c, r))
+    for key, items in found.items():
+        rep.violation(key, items[0][0] + (" (+%d more)" % (len(items) - 1) if len(items) > 1 else ""), [x[1] for x in items[:5]], items[0][2])
+    return bool(found)
